@@ -160,6 +160,7 @@ func Load(repo string, cfg BuildConfig) (*Program, error) {
 		}
 		return a.String() < b.String()
 	})
+	detectRenames(p)
 	for _, f := range p.Funcs {
 		p.byName[FuncName(f)] = f
 	}
@@ -177,6 +178,15 @@ func FuncName(f *ssa.Function) string {
 	if f == nil {
 		return "<nil>"
 	}
+	if n, ok := renamedFuncs[f]; ok {
+		return n
+	}
+	return rawFuncName(f)
+}
+
+// rawFuncName: the name as spelled in the analysed tree (FuncName maps a
+// renamed function back to its baseline name).
+func rawFuncName(f *ssa.Function) string {
 	if f.Parent() != nil {
 		// anonymous: parent name + $n
 		name := f.Name() // e.g. RangeSearch$1
